@@ -26,7 +26,7 @@ def main() -> int:
             print("   ", e)
     same = [x for x in viols if x["kind"] == v["kind"]]
     for x in viols:
-        print("VIOLATION-REPRODUCED" if x["kind"] == v["kind"] else "OTHER-VIOLATION", x["kind"], x["msg"])
+        print("REPRODUCED" if x["kind"] == v["kind"] else "OTHER-FINDING", x["kind"], x["msg"])
     if same:
         print(f"VIOLATION property={v['property']} replay={path}")
         return 1
